@@ -33,7 +33,8 @@ Inductive tfield :=
 | FIntC (maxv : Z)                         (* tok.get_int(); the range is checked by the constructor *)
 | FSigTime                                 (* RRSIG/SIG times: YYYYMMDDHHMMSS *)
 | FEui (n : nat)                           (* EUI48 / EUI64: n octets as hex pairs joined by "-" *)
-| FFmtHex.                                 (* NID nodeid / L64 locator64: xxxx:xxxx:xxxx:xxxx, kept as text *)
+| FFmtHex                                  (* NID nodeid / L64 locator64: xxxx:xxxx:xxxx:xxxx, kept as text *)
+| FOct16.                                  (* CH A address: f"{address:o}" / get_uint16(base=8) *)
 
 Inductive tval :=
 | VInt (z : Z)
@@ -701,6 +702,7 @@ Definition print_field (st : style) (f : tfield) (v : tval) : res (list Z) :=
   | FSigTime, VInt z => Ok (posixtime_to_sigtime z)
   | FEui _, VBytes b => Ok (eui_to_text b)
   | FFmtHex, VBytes t => Ok t
+  | FOct16, VInt z => Ok (print_base 8 z)
   | _, _ => Internal eBadCase
   end.
 
@@ -763,6 +765,7 @@ Definition parse_field (c : pctx) (f : tfield) (st : tstate) : res (tval * tstat
   | FSigTime => do ts <- get_string st 0; do v <- sigtime_to_posixtime (fst ts); Ok (VInt v, snd ts)
   | FEui n => do ts <- get_string st 0; do b <- eui_from_text n (fst ts); Ok (VBytes b, snd ts)
   | FFmtHex => do ts <- get_identifier st; Ok (VBytes (fst ts), snd ts)
+  | FOct16 => do vs <- get_uint max16 st 8; Ok (VInt (fst vs), snd vs)
   | FBitmap =>
       do ts <- get_remaining st 0;
       do types <- map_res bitmap_token_type (fst ts);
@@ -833,6 +836,10 @@ Definition record_to_text (st : style) (fs : list tfield) (vs : list tval) : res
 Definition u8 := FDec 255. Definition u16 := FDec 65535. Definition u32 := FDec 4294967295.
 Definition cstr := FQStr 0 255 false.
 
+(* the table is keyed by the type code for class IN; the one class-specific implementation outside IN
+   (dns/rdtypes/CH/A.py) gets the key rdclass * 65536 + rdtype *)
+Definition CH_A : Z := 3 * 65536 + 1.
+
 Definition schema_of (rdtype : Z) : option (list tfield) :=
   if rdtype =? 1 then Some [FAddr false]                                            (* A *)
   else if rdtype =? 28 then Some [FAddr true]                                       (* AAAA *)
@@ -869,6 +876,7 @@ Definition schema_of (rdtype : Z) : option (list tfield) :=
   else if rdtype =? 49 then Some [FB64Rest true]                                   (* DHCID *)
   else if rdtype =? 61 then Some [FB64Rest false]                                  (* OPENPGPKEY *)
   else if (rdtype =? 104) || (rdtype =? 106) then Some [u16; FFmtHex]               (* NID L64 *)
+  else if rdtype =? CH_A then Some [FName; FOct16]                                 (* A in class CH *)
   else if rdtype =? 108 then Some [FEui 6]                                         (* EUI48 *)
   else if rdtype =? 109 then Some [FEui 8]                                         (* EUI64 *)
   else if (rdtype =? 16) || (rdtype =? 99) || (rdtype =? 258) || (rdtype =? 56)
@@ -949,6 +957,7 @@ Fixpoint vals_of_obs (fs : list tfield) (os : list obs) : option (list tval) :=
           | FSigTime, I z => Some (VInt z :: r)
           | FEui _, B b => Some (VBytes b :: r)
           | FFmtHex, B b => Some (VBytes b :: r)
+          | FOct16, I z => Some (VInt z :: r)
           | FAlg, I z => Some (VInt z :: r)
           | FBitmap, L l => match windows_of_obs l with Some w => Some (VWindows w :: r) | None => None end
           | FName, L l => match name_of_obs l with Some n => Some (VName n :: r) | None => None end
